@@ -255,6 +255,10 @@ func toEnumList(src val.EnumList, v interface{}) (val.EnumList, error) {
 }
 
 func toEnum(src val.EnumList, v interface{}) (val.Enum, error) {
+	if v == nil {
+		// null as an element of a list
+		return val.Enum{}, fmt.Errorf("could not coerce null into enum %v", src.String())
+	}
 	if name, isText := v.(string); isText {
 		// text is the name of the enum, also when it looks like a number
 		if e, found := src.ByLabel(name); found {
